@@ -294,6 +294,10 @@ def searchFrom (ds : List Entry) (now : Int) (q : Name) : Nat → Option Entry
 def progressing (auth z qname : Name) : Bool :=
   auth.isPrefixOf z && decide (auth.length < z.length) && z.isPrefixOf qname
 
+/-- `validReferral`: one coherent NS RRset, of the question's class, that progresses -/
+def validReferral (hasNS incoherent classOk : Bool) (auth z qname : Name) : Bool :=
+  hasNS && !incoherent && classOk && progressing auth z qname
+
 def elemOf (e : Entry) : PathElem := ⟨e.zone, e.expiresAt, e.expiresAt, e.observedAt⟩
 
 /-- the seed of `resolve()` (`isRoot`): `searchCache` + `minCut` + `noteCut` -/
